@@ -362,6 +362,8 @@ class Gen:
                 return [("src", self.text(n["args"][0]), n)]
             if m == "push" and r == "$results" and len(n["args"]) == 1:
                 return [("res", self.text(n["args"][0]), n)]
+            if m == "push" and r == "self.blocks" and len(n["args"]) == 1:
+                return [("blk", self.text(n["args"][0]), n)]
             if r == "self" and m == "cleanup" and len(n["args"]) == 1:
                 return [("src", f"\n__self_cleanup({self.text(n['args'][0])});\n", n)]
             if r == "self" and m not in QUIET_SELF:
@@ -1306,6 +1308,10 @@ def run(rep, tier):
         flag_sites(rep, t, eo, listnames)
     rep.guard("R6.4", "needs_cleanup_list", r64)
     rep.guard("R6.5", "links to C24", lambda: links(rep, f, m))
+    rep.guard("R6.4", "core realloc field", lambda: core_realloc_field(rep))
+    rep.guard("R6.1", "finish_block", lambda: finish_block_rule(rep))
+    rep.guard("R6.1", "WitMap length", lambda: witmap_len(rep))
+    rep.guard("R6.3", "GuestDeallocateVariant order", lambda: variant_free_order(rep, f, m))
     rep.guard("R6.7", "census", lambda: census(rep, f, m))
     rep.guard("R6.8", "rooting of borrowed arguments", lambda: rooting(rep))
 
@@ -1386,3 +1392,97 @@ def string_lift_item(rep, f, m):
     rep.ob("R6.3", f"`{name}`: every use of the byte vector moves it into String::from_utf8[_unchecked] (ownership passes to the "
                    "returned String; nothing is copied, forgotten or leaked)", bool(uses) and len(uses) == len(consuming) and not bad,
            f"{len(uses)} use(s), {len(consuming)} consuming, {bad}", where)
+
+
+# ---------------------------------------------------------------- further necessary conditions around the audited arms
+def core_realloc_field(rep):
+    """the `realloc` the backend tests is the table's value: every lowering instruction gets self.list_realloc()"""
+    lo = synq.find_fn(CORE, "lower", self_ty="Generator")
+    rep.saw(f"{CORE}::Generator::lower")
+    g = Gen(lo.body, {"self": "self"})
+    n = 0
+    for name, node in synq.constructed(lo.body, ("StringLower", "ListCanonLower", "ListLower", "MapLower")):
+        if node.get("k") != "struct":
+            continue
+        fl = [x for x in node.get("fields", []) if x["name"] == "realloc"]
+        n += 1
+        rep.ob("R6.4", f"core: lower emits {name} with realloc = self.list_realloc()", len(fl) == 1 and
+               strip_refs(g.canon(fl[0]["e"])) == "self.list_realloc()", f"{[g.canon(x['e']) for x in fl]}", lo.loc(node))
+    rep.floor("R6.4", "core: lowering instructions that carry a realloc", n, 4)
+    lr = synq.find_fn(CORE, "list_realloc", self_ty="Generator")
+    ms = synq.matches_in(lr.body)
+    got = {}
+    if len(ms) == 1:
+        for a in synq.arms(ms[0]):
+            for h in a.heads:
+                got[short(h)] = render(a.body)
+    binder = None
+    if len(ms) == 1:
+        for a in synq.arms(ms[0]):
+            if [short(h) for h in a.heads] == ["Export"] and a.alts[0].get("k") == "p_tuple_struct" and len(a.alts[0]["elems"]) == 1:
+                binder = a.alts[0]["elems"][0].get("name")
+    rep.ob("R6.4", "core: list_realloc maps Realloc::None to None and Realloc::Export(f) to Some(f)",
+           got.get("None") == "None" and binder is not None and got.get("Export") == f"Some({binder})" and len(got) == 2, f"{got}", lr.loc())
+
+
+def finish_block_rule(rep):
+    """an element block that wrote statements (nested frees, nested guards) must keep them in the block text"""
+    fb = synq.find_fn(BINDGEN, "finish_block", self_ty="FunctionBindgen", trait="Bindgen")
+    rep.saw(f"{BINDGEN}::FunctionBindgen::finish_block")
+    g = Gen(fb.body, {"self": "self", **{p_: f"$p{i}" for i, p_ in enumerate(fb.params) if p_ and p_ != "self"}})
+    toks = [tok for act, nm, tok, b in g.entries if b.get("init") is not None and "self.src" in render(b["init"]) and
+            synq.contains_call_named(b["init"], ("replace", "take", "swap"))]
+    if len(toks) != 1:
+        raise AnchorMissing(f"finish_block: {len(toks)} locals take the block's source out of self.src")
+    tok = toks[0]
+    npath = 0
+    for a, ev in g.paths():
+        pushes = [e[1] for e in ev if e[0] == "blk"]
+        A = dict(a)
+        empty = A.get(f"{tok}.is_empty()")
+        inst = "finish_block" + stable(tagp(a))
+        npath += 1
+        rep.ob("R6.1", f"{inst}: exactly one block expression is recorded", len(pushes) == 1, f"{len(pushes)}", fb.loc())
+        if empty is not True and len(pushes) == 1:
+            keeps = any(k.startswith(tok) or ("&" + tok) in k or f"({tok}" in k for k, ph in g.ph.items() if re.search(r"\b%s\b" % ph, pushes[0]))
+            rep.ob("R6.1", f"{inst}: the statements written inside the block are part of the recorded block expression", keeps,
+                   f"`{pushes[0][:60]}`", fb.loc())
+    rep.floor("R6.1", "finish_block paths", npath, 3)
+
+
+def variant_free_order(rep, f, m):
+    arm = explicit_arm(m, "GuestDeallocateVariant")
+    g = Gen(arm.body, arm_env(f, arm))
+    loops = [n for n in synq.walk(arm.body) if n.get("k") == "for"]
+    ok = False
+    det = f"{len(loops)} loop(s)"
+    if len(loops) == 1:
+        lp = loops[0]
+        it = lp["iter"]
+        chain = []
+        while it.get("k") == "mcall":
+            chain.append(it["method"])
+            it = it["recv"]
+        root = g.binder(it["path"], pos(it)) if it.get("k") == "path" else None
+        drained = root is not None and root[1].get("init") is not None and "self.blocks" in render(root[1]["init"]) and \
+            synq.contains_call_named(root[1]["init"], ("drain", "split_off")) is not None
+        pat = lp["pat"]
+        idx = pat["elems"][0].get("name") if pat.get("k") == "p_tuple" and len(pat["elems"]) == 2 else None
+        ok = drained and set(chain) <= {"into_iter", "iter", "enumerate"} and "enumerate" in chain and idx is not None and \
+            any(n.get("k") == "mcall" and n["method"] == "to_string" and render(n["recv"]) == idx for n in synq.walk(lp["body"]))
+        det = f"iterator chain {chain[::-1]}, index `{idx}`"
+    rep.ob("R6.3", "GuestDeallocateVariant: case block i is the match arm for discriminant i (blocks drained in emission order, "
+                   "enumerated without a reordering adapter)", ok, det, f.loc(arm.node))
+
+
+def witmap_len(rep):
+    n = 0
+    for g in synq.all_fns(RTMOD):
+        if g.trait == "WitMap" and g.name == "wit_map_len" and g.body is not None:
+            n += 1
+            st = g.body["stmts"]
+            ok = len(st) == 1 and st[0].get("k") == "expr_stmt" and render(st[0]["e"]) == "self.len()"
+            rep.ob("R6.1", f"rt: WitMap for {g.self_ty}: wit_map_len is the collection's own len() (MapLower sizes the buffer with it and "
+                           "writes one entry per iterated element)", ok, render(g.body)[:80], g.loc())
+            rep.saw(f"{RTMOD}::<{g.self_ty} as WitMap>::wit_map_len")
+    rep.floor("R6.1", "rt: WitMap implementations", n, 2)
